@@ -5,8 +5,8 @@ truncation length and under every pattern of failing / short I/O calls, the inta
 panics unless the intact run does; the transcribed entry points of the reader (Model/IOProgReader.v) are in the fragment.
 
 Tie / search (this module):
-  T  truncation: every public read-API call (Open, Walk, Children, Attributes, ReadValue, Info, raw bytes, Read,
-     ReadStrings, ReadCompound) on every truncated copy of library-written and reference files (harness `c17trunc`:
+  T  truncation: every public read-API call (Open, Walk, Children, Attributes, ReadValue, Info, raw bytes, ReadSlice,
+     ReadHyperslab, ChunkIterator + Chunk, Read, ReadStrings, ReadCompound) on every truncated copy of library-written and reference files (harness `c17trunc`:
      one scratch copy, os.Truncate from the largest length downwards), compared call by call with the intact file.
   S  syscall-level fault injection with strace: the K-th pread64 of `c17dump <file>` fails with EIO, or returns 0
      (end of file), one process per K; the K-th pwrite64 / fsync / ftruncate / close of a write history (`c17whist`).
@@ -14,6 +14,9 @@ Tie / search (this module):
      local heap / group B-tree / symbol table nodes) over an io.ReaderAt that fails at call k, for every k, four kinds.
   P  parser level: the Coq programs of Model/IOProgReader.v and the Go parsers on the same images, cuts and faults
      (class and value), evaluated by coqc.
+  P2 slices: the Coq programs of Model/IOProgSlice.v and Dataset.ReadSlice / ReadHyperslab / ChunkIterator (+ Chunk) through
+     *os.File (`c17slice`, Dataset handle built without Open): same image, same cut (truncated copies) or same failing
+     pread64 (strace): class, the sequence of (offset, length) of the I/O calls, value.
 Gate per (file, cut / fault): no panic; every call of the intact file is present and its result is equal or an error;
 a call that errs on the intact file errs.  Anything else is a VIOLATION (or a KNOWN-FINDING when listed).
 """
@@ -778,6 +781,8 @@ def parser_tie(ctx, lib, viol, cov, repaired=True, workdir=None, crafted=()):
         if os.path.exists(os.path.join(td, n)):
             small.append(("ref:" + n, os.path.join(td, n), None))
     vparts = ["From HV Require Import Base.Prelude Base.Outcome Base.Bytes Model.IOProg Model.IOProgReader Model.IOProgOpen Model.IOProgTie.\n"]
+    if os.path.exists(os.path.join(vlib.COQ, "theories", "Model", "IOProgSliceTie.v")):
+        vparts.append("From HV Require Import Model.IOProgSlice Model.IOProgSliceTie.\n")
     labels, total = [], 0
     stats = collections.Counter()
     KINDS = [("eio", 0, 0), ("eof0", 0, 1), ("shortn", 4, 5), ("shortn", 20, 21), ("shortn", 60, 61)]
@@ -786,7 +791,8 @@ def parser_tie(ctx, lib, viol, cov, repaired=True, workdir=None, crafted=()):
         size = len(img)
         targets = parser_targets(H, path)
         if ctx.tier == "quick" and len(targets) > 10:
-            targets = targets[:1] + [targets[i] for i in sorted(rng.sample(range(1, len(targets)), 9))]
+            av = [t for t in targets if t[0] == "attrval"][:2]
+            targets = targets[:1] + [targets[i] for i in sorted(rng.sample(range(1, len(targets)), 9)) if targets[i] not in av] + av
         vparts.append('Definition img%d : bytes := unhex "%s".\n' % (fi, img.hex()))
         for ti, (op, addr, args) in enumerate(targets):
             ncuts = 12 if ctx.tier == "quick" else 120
@@ -816,8 +822,12 @@ def parser_tie(ctx, lib, viol, cov, repaired=True, workdir=None, crafted=()):
             vparts.append("Definition v_%s : val := %s.\n" % (name, coq_val(intact.get("v")) if intact["class"] == 0 else "VL []"))
             vparts.append("Definition %s : list (Z * Z * N * N * N) := [%s].\n" % (
                 name, ";".join("((%d)%%Z, (%d)%%Z, %d, %d, %d)" % (cut, k, code, r["class"], r["calls"]) for (cut, k, code), r in res)))
-            vparts.append("Definition bad_%s := Eval vm_compute in mismatches (tie_ok %s img%d %d v_%s) %s.\n" % (
-                name, op_code(op), fi, addr, name, name))
+            if op == "attrval":     # Model/IOProgSlice.v api_read_attribute with the variable-length string walk
+                vparts.append("Definition bad_%s := Eval vm_compute in mismatches (attrval_tie_ok img%d %d %d %d v_%s) %s.\n" % (
+                    name, fi, addr, args[0], args[1], name, name))
+            else:
+                vparts.append("Definition bad_%s := Eval vm_compute in mismatches (tie_ok %s img%d %d v_%s) %s.\n" % (
+                    name, op_code(op), fi, addr, name, name))
             labels.append(("bad_" + name, tag, op, addr, res, path))
             total += len(res)
     # hdf5.Open as a whole (Model/IOProgOpen.v p_open) on truncated copies: class and tree
@@ -1043,7 +1053,7 @@ def slice_tie(ctx, lib, viol, cov, workdir):
             stats["%s:%s" % (op, ("ok", "err", "panic")[r["class"]])] += 1
             if r["class"] == 2 or (r["class"] == 0 and (intact["class"] != 0 or r.get("v") != intact.get("v"))):
                 viol.append(dict(what="%s: cut=%d failing pread64 #%d kind%d returns %s" % (desc, cut, k + 1, code, "a panic" if r["class"] == 2 else "a different value"),
-                                 failing_input=dict(kind="slice", file=path, target=t, sel=list(sel), cut=cut, fault=k, fault_code=code),
+                                 failing_input=dict(kind="slice", file=path, tag=tag, target=t, sel=list(sel), cut=cut, fault=k, fault_code=code),
                                  intact=intact, observed=r))
         if path not in imgs:
             imgs[path] = "simg%d" % len(imgs)
@@ -1086,7 +1096,7 @@ def slice_tie(ctx, lib, viol, cov, workdir):
         tag, path, t, sel = rec["c"]
         viol.append(dict(what="%s: Coq program and the Go call disagree at cut=%d failing pread64 #%d kind%d (Go class %d, %s I/O calls); %d of %d cases" % (
                              desc, cut, k + 1, code, r["class"], "?" if tr is None else len(tr), n, len(rec["rows"])),
-                         case=dict(kind="slice", file=path, target=t, sel=list(sel), cut=cut, fault=k, fault_code=code, go_trace=tr), impl=r, nofail=True,
+                         case=dict(kind="slice", file=path, tag=tag, target=t, sel=list(sel), cut=cut, fault=k, fault_code=code, go_trace=tr), impl=r, nofail=True,
                          correspondence="Model.IOProgSlice vs Go; theorems C17_read_slice_damage / C17_read_hyperslab_damage / C17_chunk_iterator_damage"))
     cov["slice_tie"] = dict(cases=total, combos=len(labels), files=sorted(set(r["c"][0] for r in recs.values())),
                             ops=dict(collections.Counter(r["c"][3][0] for r in recs.values())),
@@ -1099,7 +1109,7 @@ def slice_tie(ctx, lib, viol, cov, workdir):
 TIE_REF = ["v0.h5", "vlen_strings.h5"]
 TIE_REF_MORE = ["with_attributes.h5", "compound_test.h5", "test_3d_chunked.h5", "string_test.h5", "mathcad_document.h5", "with_groups.h5",
                 "test_attr_int32.h5", "reference_traverse.h5"]
-OPCODES = {"superblock": 0, "ohdr": 1, "attrs": 2, "lheap": 3, "snod": 4, "gbtree": 5, "gheap": 6, "read": 7}
+OPCODES = {"superblock": 0, "ohdr": 1, "attrs": 2, "lheap": 3, "snod": 4, "gbtree": 5, "gheap": 6, "read": 7, "attrval": 8}
 
 
 def op_code(op):
@@ -1274,6 +1284,25 @@ def replay(ctx, path):
         rows = [json.loads(l) for l in p.stdout.splitlines() if l.strip()]
         bad = [r for r in rows if r.get("diffs")]
         print(json.dumps(bad[:3], indent=1)[:4000])
+    elif k == "slice":
+        fpath = fi["file"]
+        if not os.path.exists(fpath):       # library-written files are rebuilt from the fixed histories
+            lib, _ = make_lib_files(H, work)
+            tagged = {t: p for t, p, _ in lib}
+            fpath = tagged.get(fi.get("tag"), fpath)
+        op, st, cn, sd, bk = fi["sel"]
+        case = dict(addr=fi["target"]["addr"], op=op, start=st, count=cn, stride=sd, block=bk)
+        base = json.loads(subprocess.run([H, "c17slice", fpath], input=json.dumps(case), capture_output=True, text=True).stdout)
+        if fi["cut"] >= 0:
+            got = json.loads(subprocess.run([H, "c17slice", fpath], input=json.dumps(dict(case, cuts=[fi["cut"]], dir=work)),
+                                            capture_output=True, text=True).stdout)["res"][0]
+        else:
+            p, tr, inj = strace_pread_trace([H, "c17slice", fpath], json.dumps(case),
+                                            inject=(("error=EIO" if fi["fault_code"] == 0 else "retval=0"), fi["fault"] + 1), pathfilter=fpath)
+            got = json.loads(p.stdout) if p.stdout.strip() else {"class": 2, "err": p.stderr[-300:]}
+            print("injected:", inj, "trace:", tr)
+        print("intact:", json.dumps(base)[:600]); print("damaged:", json.dumps(got)[:600])
+        bad = [1] if (got["class"] == 2 or (got["class"] == 0 and (base["class"] != 0 or got.get("v") != base.get("v")))) else []
     elif k == "parser":
         img = open(fpath, "rb").read().hex()
         r = vlib.run_harness(H, "c17parse", [dict(img=img, op=fi["op"], addr=fi["addr"], args=fi.get("args", []), kind=fi.get("fault_kind", "eio"),
